@@ -587,6 +587,10 @@ func (s *Module) AddMPTNodes(nodes [][]byte) error {
 		if r.Err != nil {
 			return fmt.Errorf("failed to decode MPT node: %w", r.Err)
 		}
+		if n.Node.Type() == mpt.EmptyT {
+			// EmptyNode has no hash and can't be a part of the pool.
+			return errors.New("failed to restore MPT node: unexpected EmptyNode")
+		}
 		err := s.restoreNode(n.Node)
 		if err != nil {
 			return err
